@@ -7,6 +7,7 @@
 package backoff
 
 import (
+	"math"
 	"time"
 
 	"github.com/iotaledger/hive.go/ierrors"
@@ -164,5 +165,13 @@ func (b *exponentialPolicy) New() Policy {
 
 // Increments the current interval by multiplying it with the multiplier.
 func (b *exponentialPolicy) incrementCurrentInterval() {
-	b.currentInterval = time.Duration(float64(b.currentInterval) * b.factor)
+	next := float64(b.currentInterval) * b.factor
+	if next >= math.MaxInt64 {
+		// the largest duration is the end of the progression (the conversion of an out of range float is
+		// implementation-specific; on amd64 it would yield a negative interval)
+		b.currentInterval = math.MaxInt64
+
+		return
+	}
+	b.currentInterval = time.Duration(next)
 }
